@@ -1160,6 +1160,28 @@ def concrete_c16_rdf(c):
     return problems
 
 
+def concrete_c08(c):
+    """run 0: the graph as raw N-Triples; runs 1..: the same graph through the other delivery channels.  Each channel is compared with run 0 the way C09 compares two
+    statement orders (rdflib hands the triples over in its own order): same shapes, instance counts, constraint keys and evidence; same chosen constraints when nothing is tied."""
+    from .delivery import RDFLIB_REPARSED, splits_blank_nodes
+    problems = []
+    FINDING = "DELIVERY-rdflib-reparse-bnode-instances"
+    bnode_instances = any(str(n).startswith("_:") for n in _cref(c, 0).instances)
+    split_bn = splits_blank_nodes(c["triples"])
+    for i in range(1, len(c["reals"])):
+        ch = c["reals"][i]["run"]["real_delivery"]
+        if split_bn and ch.endswith(("/files", "/zip", "/zips")) and ch.startswith(RDFLIB_REPARSED + ("json-ld/",)):
+            continue          # blank-node labels are document-scoped for rdflib: the pieces are not the same graph
+        sub = dict(c, reals=[c["reals"][0], c["reals"][i]], schemas=[c["schemas"][0], c["schemas"][i]])
+        ps = _run_symbolic_judge_concretely(judge_c09, sub)
+        if ps and ch.startswith(RDFLIB_REPARSED) and bnode_instances and FINDING in c["active"]:
+            if c.get("known_hits") is not None:
+                c["known_hits"][FINDING] = c["known_hits"].get(FINDING, 0) + 1
+            continue
+        problems += ["delivery channel %s vs raw N-Triples: %s" % (ch, p.replace("statement order changes", "changes")) for p in ps[:2]]
+    return problems
+
+
 def concrete_same_output(c):
     """run A vs run B must state the same shapes, constraints and figures (an option that must change nothing on this input)."""
     return _run_symbolic_judge_concretely(_judge_identical, c)
@@ -1182,7 +1204,7 @@ def _judge_identical(ctx, ex):
 
 JUDGES = {
     "C01": [judge_c01], "C02": [judge_c02], "C04": [], "C05": [judge_c05], "C12": [judge_c12], "C12z": [judge_c12_zero], "C12o": [judge_c12_one],
-    "C14": [judge_c14], "C11": [judge_c11], "C13": [judge_c13], "C03": [judge_c03], "C18": [judge_c18], "C09": [judge_c09], "C17e": [], "SAME": [], "C16rdf": [],
+    "C14": [judge_c14], "C11": [judge_c11], "C13": [judge_c13], "C03": [judge_c03], "C18": [judge_c18], "C09": [judge_c09], "C17e": [], "SAME": [], "C16rdf": [], "C08e": [],
 }
 
 
@@ -1246,4 +1268,5 @@ CONCRETE = {
     "C17e": concrete_c17,
     "SAME": concrete_same_output,
     "C16rdf": concrete_c16_rdf,
+    "C08e": concrete_c08,
 }
